@@ -413,6 +413,104 @@ theorem streams_noninterference (F : Flow S) (f' : Nat → (Nat → S) → Time 
     g₁ g₂ σ₁ σ₂ [] [] hI hc₁ hc₂ i hUi
   exact congrArg Prod.snd this
 
+/-! ## the instrumentation is transparent: projecting the logged run gives the plain run
+
+A behaviour `β` over `σ` that, seen through a projection `π : σ → σ'`, does what `β'` does (same requests, same
+verdict, projected state) produces the same graph record, the same evaluated positions, the same cycle times and
+the projected state — scan, cycle and whole run. -/
+
+theorem scanFrom_proj {σ σ' : Type} (π : σ → σ') (β : Beh σ) (β' : Beh σ')
+    (h : ∀ i t u, (β.eval i t u).reqs = (β'.eval i t (π u)).reqs ∧ (β.eval i t u).ok = (β'.eval i t (π u)).ok ∧
+                  π (β.eval i t u).st = (β'.eval i t (π u)).st)
+    (t : Time) (fuel i : Nat) (g : G) (u : σ) (ev : List Nat) :
+    (scanFrom β t fuel i g u ev).g = (scanFrom β' t fuel i g (π u) ev).g ∧
+    π (scanFrom β t fuel i g u ev).st = (scanFrom β' t fuel i g (π u) ev).st ∧
+    (scanFrom β t fuel i g u ev).evaluated = (scanFrom β' t fuel i g (π u) ev).evaluated ∧
+    (scanFrom β t fuel i g u ev).ok = (scanFrom β' t fuel i g (π u) ev).ok := by
+  induction fuel generalizing i g u ev with
+  | zero => exact ⟨rfl, rfl, rfl, rfl⟩
+  | succ fuel ih =>
+    obtain ⟨hr, hok, hst⟩ := h i t u
+    simp only [scanFrom]
+    by_cases hs : g.slots.getD i 0 = t
+    · simp only [hs, ↓reduceIte]
+      rw [hr, hok]
+      by_cases hk : (β'.eval i t (π u)).ok = true
+      · simp only [hk, ↓reduceIte]
+        have := ih (i + 1) ((β'.eval i t (π u)).reqs.foldl scheduleNode { g with cursor := i }) (β.eval i t u).st (ev ++ [i])
+        rw [hst] at this
+        exact this
+      · simp only [hk]
+        exact ⟨rfl, hst, rfl, rfl⟩
+    · simp only [hs, ↓reduceIte]
+      by_cases hgt : g.slots.getD i 0 > t
+      · simp only [hgt, ↓reduceIte]; exact ih _ _ _ _
+      · simp only [hgt, ↓reduceIte]; exact ih _ _ _ _
+
+theorem cycle_proj {σ σ' : Type} (π : σ → σ') (β : Beh σ) (β' : Beh σ')
+    (h : ∀ i t u, (β.eval i t u).reqs = (β'.eval i t (π u)).reqs ∧ (β.eval i t u).ok = (β'.eval i t (π u)).ok ∧
+                  π (β.eval i t u).st = (β'.eval i t (π u)).st)
+    (fx : Bool) (n : Nat) (t : Time) (g : G) (u : σ) :
+    (cycle fx β n t g u).g = (cycle fx β' n t g (π u)).g ∧ π (cycle fx β n t g u).st = (cycle fx β' n t g (π u)).st ∧
+    (cycle fx β n t g u).ok = (cycle fx β' n t g (π u)).ok := by
+  unfold cycle
+  split
+  · have := scanFrom_proj π β β' h t (n - g.cursor) g.cursor { g with now := t, failed := false } u []
+    exact ⟨this.1, this.2.1, this.2.2.2⟩
+  · have := scanFrom_proj π β β' h t n 0 { g with now := t, failed := false, next := none, cursor := 0 } u []
+    exact ⟨this.1, this.2.1, this.2.2.2⟩
+
+theorem simLoop_proj {σ σ' : Type} (π : σ → σ') (β : Beh σ) (β' : Beh σ')
+    (h : ∀ i t u, (β.eval i t u).reqs = (β'.eval i t (π u)).reqs ∧ (β.eval i t u).ok = (β'.eval i t (π u)).ok ∧
+                  π (β.eval i t u).st = (β'.eval i t (π u)).st)
+    (fx : Bool) (n : Nat) (endT : Time) (fuel : Nat) (g : G) (u : σ) (ts : List Time) :
+    (simLoop fx β n endT fuel g u ts).g = (simLoop fx β' n endT fuel g (π u) ts).g ∧
+    π (simLoop fx β n endT fuel g u ts).st = (simLoop fx β' n endT fuel g (π u) ts).st ∧
+    (simLoop fx β n endT fuel g u ts).times = (simLoop fx β' n endT fuel g (π u) ts).times ∧
+    (simLoop fx β n endT fuel g u ts).ok = (simLoop fx β' n endT fuel g (π u) ts).ok := by
+  induction fuel generalizing g u ts with
+  | zero => exact ⟨rfl, rfl, rfl, rfl⟩
+  | succ fuel ih =>
+    rw [simLoop, simLoop]
+    cases hn : nextCycle g endT with
+    | none => exact ⟨rfl, rfl, rfl, rfl⟩
+    | some t =>
+      simp only
+      obtain ⟨hg, hst, hok⟩ := cycle_proj π β β' h fx n t g u
+      rw [hok]
+      by_cases hk : (cycle fx β' n t g (π u)).ok = true
+      · simp only [hk, ↓reduceIte]
+        rw [hg]
+        have := ih (cycle fx β' n t g (π u)).g (cycle fx β n t g u).st (ts ++ [t])
+        rw [hst] at this
+        exact this
+      · simp only [hk]
+        exact ⟨hg, hst, rfl, rfl⟩
+
+/-- the projection that forgets the logs -/
+def unlog (σ : Nat → S × List (Time × S)) : Nat → S := fun j => (σ j).1
+
+/-- **the instrumented program computes what the plain program computes**: same graph record, same cycle times,
+    and the first components of the final state are the plain final state -/
+theorem logF_transparent (F : Flow S) (ρ : Rank F.n) (fx : Bool) (endT : Time) (fuel : Nat) (g : G)
+    (σ : Nat → S × List (Time × S)) (ts : List Time) :
+    (simLoop fx (beh (logF F) ρ) F.n endT fuel g σ ts).g = (simLoop fx (beh F ρ) F.n endT fuel g (unlog σ) ts).g ∧
+    unlog (simLoop fx (beh (logF F) ρ) F.n endT fuel g σ ts).st = (simLoop fx (beh F ρ) F.n endT fuel g (unlog σ) ts).st ∧
+    (simLoop fx (beh (logF F) ρ) F.n endT fuel g σ ts).times = (simLoop fx (beh F ρ) F.n endT fuel g (unlog σ) ts).times := by
+  have h : ∀ i t u, ((beh (logF F) ρ).eval i t u).reqs = ((beh F ρ).eval i t (unlog u)).reqs ∧
+      ((beh (logF F) ρ).eval i t u).ok = ((beh F ρ).eval i t (unlog u)).ok ∧
+      unlog ((beh (logF F) ρ).eval i t u).st = ((beh F ρ).eval i t (unlog u)).st := by
+    intro i t u
+    refine ⟨rfl, rfl, ?_⟩
+    funext j
+    show (upd u (ρ.node i) ((logF F).f (ρ.node i) u t).1 j).1 = upd (unlog u) (ρ.node i) (F.f (ρ.node i) (unlog u) t).1 j
+    unfold upd
+    by_cases hj : j = ρ.node i
+    · simp only [hj, ↓reduceIte]; rfl
+    · simp only [hj, ↓reduceIte]; rfl
+  have := simLoop_proj unlog (beh (logF F) ρ) (beh F ρ) h fx F.n endT fuel g σ ts
+  exact ⟨this.1, this.2.1, this.2.2.1⟩
+
 /-! ## non-vacuity: the diamond `0 → {1, 2} → 3` of `C06Run`; node 2 "fails" in the second program (keeps its
     state, writes nothing) and, unlike the original, asks for extra wake-ups every step: the second run makes
     MORE cycles (5,6,7,...) than the first (5,7,9,11), yet nodes 0 and 1 log the same streams. -/
@@ -441,6 +539,12 @@ example : (simLoop true (beh exG exR1) 4 12 20 g0 (fun _ => 1) []).times = [5, 7
     (simLoop true (beh (withF exG failing2 failing2s) exR2) 4 12 20 g0 (fun _ => 1) []).times = [5, 6, 7, 8, 9, 10, 11] ∧
     (List.range 2).map (simLoop true (beh exG exR1) 4 12 20 g0 (fun _ => 1) []).st =
     (List.range 2).map (simLoop true (beh (withF exG failing2 failing2s) exR2) 4 12 20 g0 (fun _ => 1) []).st := by
+  decide
+
+/-- the logged streams of nodes 0 and 1 in the two runs of the diamond: equal, and they are the real streams -/
+example : ((simLoop true (beh (logF exG) exR1) 4 10 20 g0 (fun _ => (1, [])) []).st 1).2 = [(5, 4), (7, 6), (9, 8)] ∧
+    ((simLoop true (beh (logF (withF exG failing2 failing2s)) exR2) 4 10 20 g0 (fun _ => (1, [])) []).st 1).2 = [(5, 4), (7, 6), (9, 8)] ∧
+    ((simLoop true (beh (logF (withF exG failing2 failing2s)) exR2) 4 10 20 g0 (fun _ => (1, [])) []).st 2).2 = [(5, 1), (6, 1), (7, 1), (8, 1), (9, 1)] := by
   decide
 
 end HgVerif.Flow
